@@ -235,6 +235,16 @@ def check(ctx):
     ctx.instance('C16.R4', '%s long-form octet count test' % Model.qual(f), 'ok' if ok else 'VIOLATION', node=f, file=BER)
     if not ok:
         ctx.violation('C16.R4', BER, f, Model.qual(f), 'missing length octets are no longer detected (int() of a short slice gives a wrong length)', stmt='length octet count test missing')
+    # ... on *every* path that converts a bounded slice of the buffer into a number (a slice near the end of the data is silently shorter)
+    for g, conv, sl, guarded, node in [r if len(r) == 5 else r + (None,) for r in excmap.slice_conversions(f, flow.param_names(f)[0])]:
+        if conv is None:
+            ctx.instance('C16.R4', '%s slice conversions' % Model.qual(g), 'undecided', 'too many paths', nontrivial=False, node=g, file=BER)
+            continue
+        ctx.instance('C16.R4', '%s converts %s' % (Model.qual(g), sl), 'octet count compared first' if guarded else 'VIOLATION', node=node, file=BER)
+        if not guarded:
+            ctx.violation('C16.R4', BER, node, Model.qual(g),
+                          '%s is converted to a number on a path that never compared the number of octets present: an encoding cut inside the length octets is decoded with a wrong '
+                          'length (MissingDataError with a wrong expected length, or a value) instead of the out-of-data error' % sl, stmt='unchecked ' + sl)
     # missing-data test (same rule as C08.R5)
     from .C08 import decode_length_missing_data
     ok, why, _n = decode_length_missing_data(model)
